@@ -272,6 +272,9 @@ func checkC11(t *testing.T, ms *MultiScenario, rec *Recorder) []Diff {
 			seen[id] = key
 		}
 	}
+	for _, pp := range o.Wire.PortProblems {
+		add("source-port-not-held", "%s", pp)
+	}
 	paris := map[uint16]bool{}
 	for i, sc := range ms.Runs {
 		if sc.Variant == "tcp-paris" && o.Runs[i] != nil {
@@ -423,6 +426,9 @@ func TestC11Request(t *testing.T) {
 		ds := worldProblems(o.World, "C11")
 		if !p.Paris {
 			ds = append(ds, ipidBlocksOverlap(o.Wire, nil)...)
+		}
+		for _, pp := range o.Wire.PortProblems {
+			ds = append(ds, Diff{"C11", "source-port-not-held", pp})
 		}
 		if bad := matchRunsToFlows(cands); bad >= 0 {
 			ds = append(ds, Diff{"C11", "not-isolated", fmt.Sprintf("run %d of the request reported %s which equals no flow's own scripted result", bad, describeRun(&o.Res.Traceroute.Runs[bad]))})
